@@ -16,3 +16,9 @@ CHECKS["C07"] = _opseq("C07", "BFS over interleavings of refinement (all strateg
 CHECKS["C08"] = _opseq("C08", "BFS over histories that introduce, keep, replace and clear level limits through make, update, every refinement entry point and candidate requests; "
                        "every loaded/needed/candidate point is checked against the 1-D level limit; -1 entries are compared with a large limit; every call runs under a watchdog",
                        extra_assume=["a limit vector is only trusted when it dominates the levels already present (DESIGN C08 scope decision)"])
+CHECKS["C06"] = _opseq("C06", "BFS over histories (incl. empty-values grids, zero outputs, pending refinement, active construction with parked samples, merge, setcoef, update without growth); "
+                       "in every state: write/read through stream and file, binary and ASCII, observation and bytes compared; bisimulation: every alphabet op applied to the original and to the restored grid",
+                       qdepth=2, tdepth=3)
+CHECKS["C11"] = _opseq("C11", "BFS over histories; in every state: copy constructor, assignment, copyGrid (both overloads), self-assignment, every output sub-range incl. the documented out-of-range end; "
+                       "every alphabet op applied to copy and source in turn: the other side (observation and binary image) must not change and both must end equal",
+                       qdepth=2, tdepth=3)
